@@ -20,7 +20,7 @@ from gens import fa as GF, cfg as GC, pda as GP, fst as GT, regex as GR
 from models import fa as MF, regex as MR, ig as MI
 
 ID = "C19"
-CASES = {"quick": 250, "thorough": 6000}
+CASES = {"quick": 250, "thorough": 3000}
 RULE = ("seeded histories of 5-40 public calls on a pool of live automata, regexes, grammars, PDAs, transducers "
         "and indexed grammars (queries, conversions, conversions of conversions, same object as both operands, "
         "generators opened / stepped / closed) with injected faults (mutation of returned objects, mutation of "
@@ -262,9 +262,19 @@ def _scenario(rng, pool, kinds, nid, faults):
         ops.append({"op": "fa.words", "on": a, "arg": 0})
         ops.append({"op": "fa.is_deterministic", "on": a, "arg": 0})
     elif t == "fst_grow":
-        f = need("fst")
+        if rng.chance(0.5):
+            # a transducer that has no final state yet: everything is dead until one is marked later
+            d = _fst_desc(rng)
+            d["finals"] = []
+            f = need("fst", d)
+        else:
+            f = need("fst")
         ops.append({"op": "fst.translate", "on": f, "arg": arg()})
-        if faults:
+        if faults and rng.chance(0.5):
+            ops.append(mut(f, 1))
+            if rng.chance(0.3):
+                ops.append(mut(f, 1))
+        elif faults:
             ops.append(mut(f, 2))
             ops.append(mut(f, 3))
         for _ in range(3):
@@ -494,6 +504,24 @@ def snapshot(kind, obj):
         cons = sorted(repr(x) for v in obj.rules.consumption_rules.values() for x in v)
         return (tuple(rules), tuple(cons), obj.start_variable)
     raise ValueError(kind)
+
+
+def observe(kind, obj, out):
+    """answers of the *library* on the fixed probe set (used right after a mutation: the edited live object must
+    answer like a fresh object that received the same edits)"""
+    if kind == "fa":
+        return (tuple(bool(obj.accepts(list(w))) for w in PROBE), bool(obj.is_empty()), bool(obj.is_deterministic()),
+                bool(obj.is_acyclic()))
+    if kind == "fst":
+        res = []
+        for w in PROBE:
+            v = _bounded(out, lambda: sorted(set(tuple(o) for o in obj.translate(list(w)))), budget=60000)
+            res.append("budget" if v is BUDGETED else tuple(v))
+        return tuple(res)
+    if kind == "ig":
+        v = _bounded(out, obj.is_empty)
+        return "budget" if v is BUDGETED else bool(v)
+    return None
 
 
 def semantic(kind, obj, out):
@@ -795,6 +823,16 @@ def run(case, out):
                 e.muts.append(op["arg"])
             is_alias = e.recipe[0] != "build"
             out.fault("alias_mutation" if is_alias else "operand_mutation")
+            # I2 right after the edit: the live object answers like a fresh object with the same edits
+            try:
+                ol = observe(e.kind, e.obj, out)
+                of = observe(e.kind, fresh(on), out) if ol is not None else None
+            except Exception:
+                ol = of = None
+            if ol != of:
+                out.fail("I2:edited-object-answers-differ-from-fresh-replica", step=step, kind=e.kind, mutator=what,
+                         live=str(ol)[:150], fresh=str(of)[:150])
+                return
             bad = resnap(skip=(on,))
             if bad:
                 out.fail("I1:mutation-leaked", step=step, mutated=on, mutated_kind=e.kind, mutator=what, why=bad[3],
